@@ -64,7 +64,9 @@ def rv(x):
     if isinstance(x, float):
         if x != x or x in (float("inf"), float("-inf")):
             raise Unsupported("non-finite float constant %r" % x)
-        f = Fraction(x)
+        # the shortest decimal that round-trips (1e-20 -> 1/10^20), not the binary expansion: the model
+        # is real arithmetic anyway, and small coefficients keep non-linear queries tractable
+        f = Fraction(repr(x))
         if f.denominator == 1:
             return z3.RealVal(f.numerator)
         return z3.RealVal("%d/%d" % (f.numerator, f.denominator))
@@ -135,8 +137,11 @@ def wrap(e):
         return SymInt(e)
     if z3.is_rational_value(e):
         f = Fraction(e.numerator_as_long(), e.denominator_as_long())
-        v = f.numerator / f.denominator
-        if Fraction(v) == f:
+        try:
+            v = f.numerator / f.denominator
+        except OverflowError:
+            return SymReal(e)
+        if Fraction(repr(v)) == f:
             return v
     return SymReal(e)
 
@@ -269,7 +274,10 @@ def _num_binop(name, fint, freal, intdiv=False):
                 return NotImplemented
         if fint is not None and _is_intlike(self) and _is_intlike(o):
             return wrap(fint(to_int(self), to_int(o)))
-        return wrap(freal(to_real(self), to_real(o)))
+        r = freal(to_real(self), to_real(o))
+        if _ENGINE is not None and _ENGINE.rounding:
+            r = _ENGINE.rounded(r)
+        return wrap(r)
 
     op.__name__ = name
     return op
@@ -281,7 +289,10 @@ def _num_rbinop(name, fint, freal):
             return NotImplemented
         if fint is not None and _is_intlike(self) and _is_intlike(o):
             return wrap(fint(to_int(o), to_int(self)))
-        return wrap(freal(to_real(o), to_real(self)))
+        r = freal(to_real(o), to_real(self))
+        if _ENGINE is not None and _ENGINE.rounding:
+            r = _ENGINE.rounded(r)
+        return wrap(r)
 
     op.__name__ = name
     return op
@@ -328,6 +339,8 @@ def _div(a, b, site="/"):
             raise PathAbort()
         return a / bs
     eng.require_nonzero(bs, site)
+    if eng.purify_div:
+        return eng.quotient(a, bs)
     return a / bs
 
 
@@ -542,6 +555,9 @@ class SymList(list):
 # ---------------------------------------------------------------------------
 # engine
 
+UNIT_ROUNDOFF = z3.RealVal("1/9007199254740992")      # 2^-53
+
+
 class FreshSolver:
     """Solver facade that re-solves from scratch on every check().  z3's incremental core (used as
     soon as push/pop appear) is much weaker on non-linear real arithmetic than the tactic pipeline a
@@ -612,6 +628,10 @@ class Engine:
         self.path = []
         self.errors = []
         self.child_hook = None
+        self.purify_div = False
+        self.rounding = False
+        self.enum_models = 0
+        self._quot = {}
         self._kids = []
         self._owns_slot = False
         self.deadline = deadline
@@ -946,6 +966,25 @@ class Engine:
             return v
         return None
 
+    def rounded(self, t):
+        """standard rounding model: fl(t) = t * (1 + d), |d| <= 2^-53 (one fresh d per operation)"""
+        d = z3.Real(self.fresh("rnd"))
+        self.assume(z3.And(d >= -UNIT_ROUNDOFF, d <= UNIT_ROUNDOFF))
+        return t * (1 + d)
+
+    def quotient(self, a, b):
+        """a / b as a fresh variable q with q*b = a (b != 0 already required): keeps NRA queries polynomial"""
+        key = (a.get_id(), b.get_id())
+        c = self._quot
+        if c.get("pc") is not self.pc:
+            c.clear()
+            c["pc"] = self.pc
+        if key not in c:
+            q = z3.Real(self.fresh("quot"))
+            self.assume(q * b == a)
+            c[key] = (a, b, q)
+        return c[key][2]
+
     def emit(self, key, obj):
         self.emitted.setdefault(key, []).append(obj)
 
@@ -1072,7 +1111,18 @@ class Engine:
         r = self._check()
         if r == z3.sat:
             m = self.solver.model()
-            self.illdefined.append(dict(what=what, model=self._model_dict(m), path=self.path_string()))
+            rec = dict(what=what, model=self._model_dict(m), path=self.path_string())
+            if self.enum_models:
+                more = []
+                ins = [v for v in self.track_vars]
+                for _ in range(self.enum_models):
+                    self.solver.add(z3.Or([v != m.eval(v, model_completion=True) for v in ins]))
+                    if self._check() != z3.sat:
+                        break
+                    m = self.solver.model()
+                    more.append(self._model_dict(m))
+                rec["more_models"] = more
+            self.illdefined.append(rec)
         elif r == z3.unknown:
             self.unknowns.append("require:" + what)
         self.solver.pop()
